@@ -50,7 +50,7 @@ def cwd(path):
         os.chdir(old)
 
 
-def spellings(box, parent, name, single):
+def spellings(box, parent, name, single, files=()):
     """(label, cwd, path string) variants naming the same payload."""
     root = os.path.join(parent, name)
     other = os.path.join(box, "elsewhere")
@@ -71,6 +71,14 @@ def spellings(box, parent, name, single):
                 ("trail-dot", parent, name + "/."), ("dot-inside", root, "."),
                 ("dotslash-inside", root, "./"),
                 ("updown", parent, "x/../" + name), ("abs-dot", box, root + "/.")]
+        # the working directory lies INSIDE the payload, one or more levels down
+        for rel, _ in files:
+            comps = rel.split("/")[:-1]
+            if comps:
+                sub = os.path.join(root, *comps)
+                out += [("abs-from-inside", sub, root), ("up-from-inside", sub, "/".join([".."] * len(comps))),
+                        ("rel-from-inside", sub, os.path.relpath(root, sub) + "/")]
+                break
     else:
         out += [("updown", parent, "../" + os.path.basename(parent) + "/" + name)]
     return out
@@ -157,7 +165,7 @@ def run_case(run, drv, case_seed, tier):
                          {"why": "info dictionary differs", "keys": diff,
                           "name": repr(a.get(b"name"))})
         n = 0
-        for label, wd, spelled in spellings(box, parent, name, single):
+        for label, wd, spelled in spellings(box, parent, name, single, files):
             n += 1
             with cwd(wd):
                 try:
